@@ -1400,19 +1400,23 @@ var purityPool = []string{"(1 + 2) * 3", "a.b + c", "$x = a.b, $x * 2", "len(s) 
 	"regexp(s, '^h')", "replace(s, 'l', 'L')", "mid(s, 1, 3)", "abs(-c)", "ceil(1.2) + floor(-1.2)", "toInt('12') + toFloat('1.5')", "includes(['a'], 'a')",
 	"lpad('7', '0', 3)", "c ? 1 : 2", "2.5 * 2", "7.5 * 0.5", "roundBank(7.5) + roundBank(0.5)", "round(2.5)", "-c", "abs(c) + c", "$n = -c, c", "(a).b", "f(a...)", "null == x", "$y = 1, $y = $y + 1, $y", "weekDay(date(2000, 1, 1))",
 	"sqrt(c + 2) * exp(1)", "ln(c + 1) + log(100)", "min(c, 1, -1)", "roundCash(c + 0.5, 2)", "[hour(date(2024, 1, 2)), minute(date(2024, 1, 2)), millSecond(date(2024, 1, 2))]", "timeFormat(date(2024, 1, 2), '2006-01-02')",
+	// a host function that changes the number it was handed IN PLACE, and numbers that come back to the caller (who may
+	// change them too): every evaluation builds its own numbers, so the next evaluation of the same tree is unaffected
+	"bump(5)", "bump(2.5) + bump(2.5)", "[bump(1), 1, 5]", "bump(1 + 1)", "$q = 7, bump(3), $q", "[5, 6.5, 0.1 + 0.2]", "[[1], [2, [3]]]", "bump(0x10) + 0x10", "bump(1_0)", "c ? 5 : 6", "[1e3, 1000, 'x']",
 	"join(mapToArr([a], 'b'), ',')", "trim('  x ') + rpad(s, '.', 7)", "toInt(7.9) % 4", "0x1F + !!c", "toFloat('2.5') + toInt('9')", "finite(1/0) + abs(-2)", "upper('ß') + lower('İ')"}
 
 var addrRe = regexp.MustCompile(`0x[0-9a-f]+`)
 
 func purityData(i int) map[string]interface{} {
 	f := func(a *decimal.Big, b string) (string, error) { return a.String() + b, nil }
+	bump := func(x *decimal.Big) (*decimal.Big, error) { return x.Add(x, decimal.New(1, 0)), nil }
 	if i == 3 {
 		return map[string]interface{}{"m": map[string]interface{}{"Key": 1, "key": "lower"}, "s": "hello"}
 	}
 	base := []map[string]interface{}{
-		{"a": map[string]interface{}{"b": 1}, "c": 2, "s": "hello", "f": f},
-		{"a": map[string]interface{}{"b": 1.5}, "c": 0, "s": "", "f": f},
-		{"a": nil, "c": int64(7), "s": "hi there", "x": "set", "f": f},
+		{"a": map[string]interface{}{"b": 1}, "c": 2, "s": "hello", "f": f, "bump": bump},
+		{"a": map[string]interface{}{"b": 1.5}, "c": 0, "s": "", "f": f, "bump": bump},
+		{"a": nil, "c": int64(7), "s": "hi there", "x": "set", "f": f, "bump": bump},
 	}
 	m := map[string]interface{}{}
 	for k, v := range base[i%len(base)] {
@@ -1629,6 +1633,7 @@ func suitePurity(o *Out, thorough bool, seed int64) {
 					res = "E:" + e.Error()
 				}
 				results = append(results, res)
+				scribbleNumbers(v) // the caller changes the numbers it got back, in place
 				noise()
 				protect(func() { formula.ResolveReferenceFields(s1) })
 			}
@@ -1833,4 +1838,22 @@ func bigLn(x *big.Float) *big.Float {
 		y.Add(y, num)
 	}
 	return y
+}
+
+// scribbleNumbers adds 1, in place, to every decimal reachable from a result
+func scribbleNumbers(v interface{}) {
+	switch x := v.(type) {
+	case *decimal.Big:
+		if x != nil {
+			x.Add(x, decimal.New(1, 0))
+		}
+	case []interface{}:
+		for _, e := range x {
+			scribbleNumbers(e)
+		}
+	case map[string]interface{}:
+		for _, e := range x {
+			scribbleNumbers(e)
+		}
+	}
 }
